@@ -46,6 +46,9 @@ Programs ==
     CASE Scenario = "put_get"     -> [p1 |-> [op |-> "put", val |-> "w1", tag |-> FALSE], g1 |-> [op |-> "get"]]
       [] Scenario = "putT_get"    -> [p1 |-> [op |-> "put", val |-> "w1", tag |-> TRUE], g1 |-> [op |-> "get"]]
       [] Scenario = "put_put"     -> [p1 |-> [op |-> "put", val |-> "w1", tag |-> FALSE], p2 |-> [op |-> "put", val |-> "w2", tag |-> FALSE]]
+      \* the first writer uploads again exactly what is stored (a sync tool's re-upload)
+      [] Scenario = "reput_put"   -> [p1 |-> [op |-> "put", val |-> "w0", tag |-> FALSE], p2 |-> [op |-> "put", val |-> "w2", tag |-> FALSE]]
+      [] Scenario = "reput_put_get" -> [p1 |-> [op |-> "put", val |-> "w0", tag |-> FALSE], p2 |-> [op |-> "put", val |-> "w2", tag |-> FALSE], g1 |-> [op |-> "get"]]
       [] Scenario = "put_put_get" -> [p1 |-> [op |-> "put", val |-> "w1", tag |-> FALSE], p2 |-> [op |-> "put", val |-> "w2", tag |-> FALSE], g1 |-> [op |-> "get"]]
       [] Scenario = "putT_putT_get" -> [p1 |-> [op |-> "put", val |-> "w1", tag |-> TRUE], p2 |-> [op |-> "put", val |-> "w2", tag |-> TRUE], g1 |-> [op |-> "get"]]
       [] Scenario = "put_del"     -> [p1 |-> [op |-> "put", val |-> "w1", tag |-> FALSE], d1 |-> [op |-> "del"]]
